@@ -25,6 +25,11 @@ def run(ctx):
     r = ctx.tlc("NsqdMeta", "NsqdMeta_asfound.cfg", timeout=600, label="as-found (expected: IdleFileEqualsLive violated)")
     if r.violated != "IdleFileEqualsLive":
         raise Inconclusive("NsqdMeta_asfound.cfg no longer exhibits the stale deletion (got %s)" % r.violated)
+    # ... and a write protocol that moves the current file aside before renaming the new one in (two renames) must be
+    # refuted: between them the data path has no metadata file
+    r = ctx.tlc("NsqdMeta", "NsqdMeta_backupfirst.cfg", timeout=600, label="backup-first variant (expected: FileNeverVanishes violated)")
+    if r.violated != "FileNeverVanishes":
+        raise Inconclusive("NsqdMeta_backupfirst.cfg is not refuted (got %s)" % r.violated)
     nsqd = ctx.repo_bin("nsqd")
     cases = []
     seed = ctx.seed * 1000
@@ -50,6 +55,9 @@ def run(ctx):
     for i in range(60 if quick else 400):
         seed += 1
         cases.append({"kind": "ackburst", "seed": seed, "fails": []})
+    for i in range(6 if quick else 30):
+        seed += 1
+        cases.append({"kind": "secondburst", "seed": seed, "fails": []})
     cases.append({"kind": "second", "seed": seed + 1, "fails": []})
     cf = os.path.join(ctx.scratch, "meta-cases.json")
     json.dump(cases, open(cf, "w"))
